@@ -1078,7 +1078,7 @@ def m_searchsorted_arr(arr, v, side="left", sorter=None):
         R.CTX.assumptions.append(z3.And(free >= 0, free <= len(es)))
         if asc is False:
             return Sym(free, int)
-        return merge(Sym(asc, bool), tot, Sym(free, int))
+        return merge(asc, tot, Sym(free, int))
     if isinstance(v, SymArray):
         return SymArray([one(x) for x in v.e], int)
     if isinstance(v, Masked):
